@@ -108,11 +108,16 @@ CLAIMED = {
              "steps, k counted among tag siblings) evaluates - from any context node, with any prefix map - to exactly that "
              "node (c14_selects_self, over the C06 evaluator model); different tag nodes have different expressions and "
              "different strings (c14_injective, c14_string_injective); the path consists only of indexed wildcard child steps "
-             "(c14_shape). That parse(location_path) is that expression is evaluated through the parser model for every "
-             "explored case. Tie to code: location_path of every tag node of forests reached by edit histories == model "
+             "(c14_shape). The string is tied to the expression by a theorem as well: the tokenizer + parser model of C16 turns "
+             "location_path into exactly locationPathAst, for every path whose printed indexes have at most "
+             "sys.get_int_max_str_digits() = 4300 digits, and only for those (c14_parse_location_path_partial/_iff/_too_long, "
+             "c14_string_selects_self_partial; the unconditional statement is false in the model - a parent with 10^4300 tag "
+             "children - and the counterexample is kept as a theorem). Tie to code: location_path of every tag node of forests reached by edit histories == model "
              "string; evaluating it on the implementation from random context nodes under six ambient filter settings "
              "returns exactly the node; strings pairwise distinct; independent of ambient filters.",
-        note=TB + "parse(location_path) = locationPathAst is established per explored case (driver), not as a theorem.",
+        note=TB + "The parse theorem carries the hypothesis that no printed index has more than 4300 digits (the parser refuses "
+             "longer number literals: Python's int() limit, generated into the tables); a tree with 10^4300 siblings cannot be "
+             "built, the refusal of such a literal by the real parser is part of the C16 correspondence.",
         technique="Lean 4 theorems over the evaluator model (induction on the path) + differential correspondence",
         design="3/C14",
     ),
